@@ -167,3 +167,24 @@ def observe_decode(t, b):
     se = attempt(ser, anyerr=True)
     re = attempt(lambda: decode(t, bytes(x.encode_bytes())).hash_tree_root(), anyerr=True)
     return [True, [root, se, re]], x
+
+
+def content_of(t, x):
+    """abstract value (ssz.py JSON form) read back element by element from a library value"""
+    k = t[0]
+    if k == "uint":
+        return int(x)
+    if k == "bool":
+        return bool(x)
+    if k in ("bytevec", "bytelist"):
+        return bytes(x).hex()
+    if k in ("bitvec", "bitlist"):
+        return "".join("1" if x[i] else "0" for i in range(len(x)))
+    if k in ("vec", "list"):
+        return [content_of(t[1], x[i]) for i in range(len(x))]
+    if k == "cont":
+        return [content_of(f, getattr(x, "f%d" % i)) for i, f in enumerate(t[1])]
+    if k == "union":
+        sel = x.selector()
+        o = union_opt(t, sel)
+        return [sel, None if o is None else content_of(o, x.value())]
